@@ -15,6 +15,8 @@ canonical spelling, so a rule sees the same tree whichever one the author chose:
                                            (n a len(..) call); constant-first order of builtin max/min
   D6  redundant containers               : torch.cat(tuple) -> torch.cat(list) for cat / stack / column_stack / hstack / vstack
   D7  torch.Tensor.F(x, ..)              -> like D1
+  D8  a @ b                              -> torch.matmul(a, b)
+  D9  dict(m) / dict(m, **n) / dict(a=x) -> {**m} / {**m, **n} / {'a': x}
 
 Only spelling is touched: every rewrite is an identity of the PyTorch / Python
 semantics for tensor receivers.  Receivers that are imported modules, `self`
@@ -41,6 +43,17 @@ NEW_CTORS = {"new_zeros": "zeros", "new_ones": "ones", "new_empty": "empty", "ne
 SEQ_ARG = {"cat", "concat", "concatenate", "stack", "column_stack", "hstack", "vstack", "row_stack"}
 # receivers that are never tensors
 NON_TENSOR_ROOTS = {"torch", "np", "numpy", "math", "nn", "F", "functional", "scipy", "shapely", "trimesh", "plt", "os", "sys", "warnings", "itertools", "functools", "random", "builtins", "self", "cls", "super", "pl", "logging", "time", "copy", "inspect", "numbers", "abc", "matplotlib", "anim", "colors", "cm"}
+
+
+def attr_chain_(node: ast.AST) -> Optional[str]:
+    parts = []
+    while isinstance(node, ast.Attribute):
+        parts.append(node.attr)
+        node = node.value
+    if isinstance(node, ast.Name):
+        parts.append(node.id)
+        return ".".join(reversed(parts))
+    return None
 
 
 def _chain_root(node: ast.AST) -> Optional[str]:
@@ -134,6 +147,12 @@ class Canon(ast.NodeTransformer):
                             kws.append(ast.keyword(arg=a, value=ast.copy_location(ast.Attribute(value=copy.deepcopy(f.value), attr=a, ctx=ast.Load()), node)))
                     new = ast.Call(func=_torch_attr(NEW_CTORS[m], node), args=node.args, keywords=kws)
                     return self._hit(new, node)
+        # D9 dict(m) -> {**m}; dict(m, **n) -> {**m, **n}; dict(a=x) -> {'a': x}
+        if isinstance(f, ast.Name) and f.id == "dict" and len(node.args) <= 1 and not any(isinstance(a, ast.Starred) for a in node.args) and (node.args or node.keywords):
+            if not (node.args and isinstance(node.args[0], (ast.List, ast.Tuple, ast.ListComp, ast.GeneratorExp))) and not (node.args and isinstance(node.args[0], ast.Call) and attr_chain_(node.args[0].func) == "zip"):
+                keys = [None] * len(node.args) + [None if k.arg is None else ast.Constant(value=k.arg) for k in node.keywords]
+                vals = list(node.args) + [k.value for k in node.keywords]
+                return self._hit(ast.Dict(keys=keys, values=vals), node)
         # D5 builtin max/min: constant first; max(n, 1)
         if isinstance(f, ast.Name) and f.id in ("max", "min") and len(node.args) == 2 and not node.keywords and not has_star:
             a, b = node.args
@@ -163,6 +182,12 @@ class Canon(ast.NodeTransformer):
         if isinstance(node.op, ast.Or) and len(node.values) == 2 and _is_len(node.values[0]) and _is_const(node.values[1], 1):
             new = ast.Call(func=ast.copy_location(ast.Name(id="max", ctx=ast.Load()), node), args=[ast.copy_location(ast.Constant(value=1), node), node.values[0]], keywords=[])
             return self._hit(new, node)
+        return node
+
+    def visit_BinOp(self, node: ast.BinOp):
+        self.generic_visit(node)
+        if isinstance(node.op, ast.MatMult):
+            return self._hit(ast.Call(func=_torch_attr("matmul", node), args=[node.left, node.right], keywords=[]), node)
         return node
 
     # ------------------------------------------------------------ D4 None-indexing
